@@ -140,6 +140,19 @@ def ClearedPost (cfg : Cfg) (dest dmax code : Nat) (st st' : St) : Prop :=
 theorem ClearedPost.ovrlp {cfg : Cfg} {dest dmax : Nat} {st st' : St} (h : ClearedPost cfg dest dmax ESOVRLP st st') :
     OvrlpPost cfg dest dmax st st' := h
 
+theorem handleError_cleared (cfg : Cfg) (oD oM code : Nat) (st : St) (hrw : RW st oD oM) (hoM : 0 < oM) :
+    ∃ st', exec (handleError cfg oD oM code) st = .ok ((), st') ∧ ClearedPost cfg oD oM code st st' := by
+  obtain ⟨st', he, _, _, _, hst, hev, h0, hsl, hns⟩ := handleError_ok cfg oD oM code st hrw hoM
+  refine ⟨st', he, hst, hev, h0, ?_, ?_⟩
+  · intro hcs i hi
+    rw [hsl hcs (oD+i)]
+    have : oD ≤ oD + i ∧ oD + i < oD + oM := by omega
+    simp [this]
+  · intro a ha
+    cases hcs : cfg.slack with
+    | true => rw [hsl hcs a]; simp [ha]
+    | false => exact hns hcs a (by intro h; subst h; exact ha ⟨Nat.le_refl _, by omega⟩)
+
 theorem stpFail_cleared (cfg : Cfg) (oD oM code : Nat) (st : St) (hrw : RW st oD oM) (hoM : 0 < oM) :
     ∃ st', exec (do handleError cfg oD oM code; pure (0, code) : Prog (Nat × Nat)) st = .ok ((0, code), st') ∧
       ClearedPost cfg oD oM code st st' := by
